@@ -1269,6 +1269,19 @@ class Closure:
             self.queue.append(fid)
 
     queue = None
+    _ov = None
+
+    def _overrides(self, callee):
+        """ids of impl methods that override the trait method `path::Trait::name` (class-hierarchy analysis)"""
+        if self._ov is None:
+            self._ov = {}
+            for imp in self.fx.impls:
+                tr = imp.get("trait")
+                if not tr:
+                    continue
+                for it in imp["items"]:
+                    self._ov.setdefault(tr + "::" + it.rsplit("::", 1)[-1], []).append(it)
+        return [o for o in self._ov.get(callee, ()) if o != callee]
 
     def run(self):
         for _ in range(6):
@@ -1320,6 +1333,10 @@ class Closure:
                         cs.add(i + 1)
                 if cb or cs:
                     self._merge(callee, cb, cs)
+                    # a call of a trait's provided method on a generic / dyn receiver may run any override of it:
+                    # hand the same untrusted arguments to every impl of that trait in the crate that defines the method
+                    for ov in self._overrides(callee):
+                        self._merge(ov, cb, cs)
             # closures built here capture untrusted values: seed them through their env fields
             for loc, st in fn.iter_locs():
                 if st[0] == "a" and st[2][0] == "agg" and isinstance(st[2][1], str) and st[2][1].startswith("closure:"):
